@@ -67,6 +67,29 @@ var c01Cells = []struct{ name, prog string }{
 	{"closure.read.recursion", "(defun c01rec# (vn vf) (if (< vn 1) (funcall vf 0) (c01rec# (- vn 1) (if vf vf (lambda (vz) (vtr vn)))))) (c01rec# 2 nil)"},
 	{"closure.escape.upward", "(defun c01mk# (vx) (lambda (vz) (+ vx vz))) (let ((vx 100)) (funcall (c01mk# 1) 10))"},
 	{"closure.fresh-per-call", "(defun c01mk# (vx) (lambda (vz) (setq vx (+ vx vz)))) (let ((vf (c01mk# 1)) (vg (c01mk# 100))) (funcall vf 1) (funcall vg 1) (list (funcall vf 0) (funcall vg 0)))"},
+	// closures that outlive the binding they were created in (called when the let / the function call that made
+	// them has returned), assigning the captured variable from every kind of nested scope of their body
+	{"closure.escaped.setq-direct", "(let ((vf (let ((vc 0)) (lambda (vz) (setq vc (+ vc vz)) (vtr vc))))) (funcall vf 1) (funcall vf 2))"},
+	{"closure.escaped.setq-in-let", "(let ((vf (let ((vc 0)) (lambda (vz) (let ((vq 1)) (setq vc (+ vc vz vq))) (vtr vc))))) (funcall vf 1) (funcall vf 2))"},
+	{"closure.escaped.setq-in-letstar", "(let ((vf (let ((vc 0)) (lambda (vz) (let* ((vq 1) (vr vq)) (setq vc (+ vc vz vr))) (vtr vc))))) (funcall vf 1) (funcall vf 2))"},
+	{"closure.escaped.setq-in-dotimes", "(let ((vf (let ((vc 0)) (lambda (vz) (dotimes (vi 2) (setq vc (+ vc vz vi))) (vtr vc))))) (funcall vf 1) (funcall vf 2))"},
+	{"closure.escaped.setq-in-dolist", "(let ((vf (let ((vc 0)) (lambda (vz) (dolist (vx (quote (1 2))) (setq vc (+ vc vz vx))) (vtr vc))))) (funcall vf 1) (funcall vf 2))"},
+	{"closure.escaped.setq-in-do", "(let ((vf (let ((vc 0)) (lambda (vz) (do ((vi 0 (+ vi 1))) ((>= vi 2)) (setq vc (+ vc vz vi))) (vtr vc))))) (funcall vf 1) (funcall vf 2))"},
+	{"closure.escaped.setq-in-dostar", "(let ((vf (let ((vc 0)) (lambda (vz) (do* ((vi 0 (+ vi 1))) ((>= vi 2)) (setq vc (+ vc vz vi))) (vtr vc))))) (funcall vf 1) (funcall vf 2))"},
+	{"closure.escaped.setq-in-mvb", "(let ((vf (let ((vc 0)) (lambda (vz) (multiple-value-bind (vm vn) (values vz 1) (setq vc (+ vc vm vn))) (vtr vc))))) (funcall vf 1) (funcall vf 2))"},
+	{"closure.escaped.setq-in-block", "(let ((vf (let ((vc 0)) (lambda (vz) (block vb (setq vc (+ vc vz))) (vtr vc))))) (funcall vf 1) (funcall vf 2))"},
+	{"closure.escaped.setq-in-nested-lambda", "(let ((vf (let ((vc 0)) (lambda (vz) (funcall (lambda (vy) (setq vc (+ vc vy))) vz) (vtr vc))))) (funcall vf 1) (funcall vf 2))"},
+	{"closure.escaped.from-defun", "(defun c01mk# (vc) (lambda (vz) (let ((vq 1)) (setq vc (+ vc vz vq))) (vtr vc))) (let ((vf (c01mk# 10)) (vg (c01mk# 20))) (funcall vf 1) (funcall vg 2) (funcall vf 3))"},
+	{"closure.escaped.two-share-one-binding", "(let ((vfs (let ((vc 0)) (list (lambda (vz) (let ((vq vz)) (setq vc (+ vc vq)))) (lambda (vz) (vtr vc)))))) (funcall (car vfs) 5) (funcall (car (cdr vfs)) 0) (funcall (car vfs) 2) (funcall (car (cdr vfs)) 0))"},
+	{"closure.escaped.through-mapcar", "(let ((vf (let ((vc 0)) (lambda (vz) (let ((vq vz)) (setq vc (+ vc vq))))))) (vtr (mapcar vf (quote (1 2 3)))))"},
+	{"closure.escaped.through-apply", "(let ((vf (let ((vc 0)) (lambda (vy vz) (dotimes (vi 1) (setq vc (+ vc vy vz))) (vtr vc))))) (apply vf 1 (quote (2))) (apply vf (quote (3 4))))"},
+	{"closure.escaped.global-not-touched", "(setq vcg# 7) (let ((vf (let ((vcg# 0)) (lambda (vz) (let ((vq 1)) (setq vcg# (+ vcg# vz vq))) (vtr vcg#))))) (funcall vf 1) (vtr vcg#))"},
+	// the same let / function body evaluated again: every evaluation has its own bindings
+	{"let.reevaluated-parallel", "(let ((vx 1) (vout nil)) (dotimes (vi 3) (let ((vx (+ vx 10)) (vy (+ vx 100))) (setq vout (cons (list vx vy) vout)))) (vtr vout))"},
+	{"defun.recursion-frames-independent", "(defun c01rf# (vn) (let ((va (* vn 10))) (if (> vn 0) (c01rf# (- vn 1))) (vtr (list vn va)))) (c01rf# 2) (c01rf# 1)"},
+	{"defun.recursion-after-call-arg", "(defun c01ra# (vn) (if (< vn 1) 0 (+ (c01ra# (- vn 1)) (vtr vn)))) (vtr (c01ra# 3)) (vtr (c01ra# 2))"},
+	{"dolist.list-form-outside-binding", "(let ((vx (quote (1 2 3))) (vacc nil)) (dolist (vx vx) (setq vacc (cons vx vacc))) (vtr (list vacc vx)))"},
+	{"mvb.values-form-outside-binding", "(let ((va 1)) (multiple-value-bind (va vb) (values (+ va 1) 2) (vtr (list va vb))))"},
 	{"defun.free-var-lexical", "(defun c01fv# (vz) (vtr vq#)) (setq vq# 1) (let ((vq# 2)) (c01fv# 0))"},
 	{"defun.recursion", "(defun c01fact# (vn) (if (< vn 2) 1 (* vn (c01fact# (- vn 1))))) (vtr (c01fact# 5))"},
 	{"defun.late-binding", "(defun c01a# (vz) (c01b# vz)) (defun c01b# (vz) (vtr (+ vz 1))) (c01a# 1)"},
@@ -319,9 +342,9 @@ func evShrink(c *lib.Ctx, cs evCase, aspect string, impl, model evObs, avoid fun
 	budget := 1200 // implementation runs
 	// candidates may run away (an exit that is not forwarded removes the base case of a recursion):
 	// short deadline, and shrinking stops after three such candidates
-	savedDeadline, restarts0 := evDeadline, evRestarts
-	evDeadline = 2 * time.Second
-	defer func() { evDeadline = savedDeadline }()
+	savedLimit, restarts0 := evCPULimit, evRestarts
+	evCPULimit, evNoRetry = time.Second, true
+	defer func() { evCPULimit, evNoRetry = savedLimit, false }()
 	for round := 0; round < 40 && budget > 0; round++ {
 		cands := evShrinkCandidates(cur)
 		if len(cands) == 0 {
